@@ -90,3 +90,32 @@ Theorem C20_generator_header_of_single_proposal :
   let f := gen_redkg (l ++ p :: r) in
   gf_id f = gm_round p /\ gf_threshold f = gm_threshold p /\ gf_parts f = gm_parts p.
 Proof. exact gen_header_of_single_proposal. Qed.
+
+(* ---- the 0.1.4 adaptation of a reinit file (adapt_dkg.go GetAdaptedReDKG, Node/Adapt.v) ---- *)
+Require Import Node.Adapt Node.AdaptProofs.
+
+(* every sender that has a deal message IN THE ROUND BEING RESTORED gets exactly one synthetic
+   self-confirmation, every other sender none - whatever deals of other rounds in that sender's name the
+   file holds (before the repair 5ae9baa a foreign deal used the sender's self-confirmation up) *)
+Theorem C20_adaptation_one_self_confirmation_per_dealer :
+  forall id s msgs, (forall m, In m msgs -> am_synthetic m = false) ->
+  synthetic_of s (adapt id msgs) = if has_deal id s msgs then 1%nat else 0%nat.
+Proof. exact one_self_confirmation_per_dealer_of_the_round. Qed.
+Print Assumptions C20_adaptation_one_self_confirmation_per_dealer.
+
+(* a synthetic message is a deal of the restored round from its sender to itself *)
+Theorem C20_adaptation_synthetic_messages_belong_to_the_round :
+  forall id msgs x, (forall m, In m msgs -> am_synthetic m = false) ->
+  In x (adapt id msgs) -> am_synthetic x = true ->
+  am_round x = id /\ am_event x = ev_deal /\ am_recipient x = am_sender x.
+Proof. exact synthetic_messages_belong_to_the_restored_round. Qed.
+
+(* the file's own messages are all kept, in order (only their offsets change), and the offsets of the
+   adapted file are its positions *)
+Theorem C20_adaptation_keeps_the_file :
+  forall id msgs, (forall m, In m msgs -> am_synthetic m = false) ->
+  map forget_offset (filter (fun m => negb (am_synthetic m)) (adapt id msgs)) = map forget_offset msgs.
+Proof. exact adapted_keeps_the_file. Qed.
+Theorem C20_adaptation_offsets_are_positions :
+  forall id msgs, offsets_are_positions (adapt id msgs).
+Proof. exact adapted_offsets_are_positions. Qed.
